@@ -348,6 +348,80 @@ impl Analysis {
         self.productive.iter().all(|p| *p)
     }
 
+    /// Shape features of the grammar, reported as reach probes (which corners of grammar
+    /// space the workload actually visited).
+    pub fn shape(&self) -> Vec<(&'static str, bool)> {
+        let n = self.productive.len();
+        // left-corner relation: b can appear leftmost in a string derived from a (through
+        // nullable prefixes)
+        let mut lc = vec![vec![false; n]; n];
+        for r in &self.rules {
+            for s in &r.rhs {
+                match s {
+                    Sym::T(_) => break,
+                    Sym::N(b) => {
+                        lc[r.lhs][*b] = true;
+                        if !self.nullable[*b] {
+                            break;
+                        }
+                    }
+                }
+            }
+        }
+        let direct_lr = (0..n).any(|a| lc[a][a]);
+        // transitive closure
+        let mut tc = lc.clone();
+        for k in 0..n {
+            for i in 0..n {
+                if tc[i][k] {
+                    for j in 0..n {
+                        if tc[k][j] {
+                            tc[i][j] = true;
+                        }
+                    }
+                }
+            }
+        }
+        let indirect_lr = (0..n).any(|a| (0..n).any(|b| b != a && tc[a][b] && tc[b][a]));
+        // nullable only through other nonterminals (no empty rule of its own)
+        let nullable_via_nt = (0..n).any(|a| {
+            self.nullable[a] && !self.rules_of[a].iter().any(|ri| self.rules[*ri].rhs.is_empty())
+        });
+        // ... and that at depth >= 2
+        let via = |a: usize| -> bool {
+            self.nullable[a] && !self.rules_of[a].iter().any(|ri| self.rules[*ri].rhs.is_empty())
+        };
+        let nullable_chain2 = (0..n).any(|a| {
+            via(a)
+                && self.rules_of[a].iter().any(|ri| {
+                    let r = &self.rules[*ri];
+                    !r.rhs.is_empty() && r.rhs.iter().all(|s| matches!(s, Sym::N(b) if via(*b)))
+                })
+        });
+        // recursion in the middle of a rule whose first symbol is a nonterminal: A -> B .. A ..
+        let nt_prefixed_nesting = self.rules.iter().any(|r| {
+            r.rhs.len() >= 2
+                && matches!(r.rhs[0], Sym::N(b) if b != r.lhs)
+                && r.rhs[1..].iter().any(|s| *s == Sym::N(r.lhs))
+        });
+        let right_nullable_tail = self.rules.iter().any(|r| {
+            r.rhs.len() >= 2 && matches!(r.rhs[r.rhs.len() - 1], Sym::N(b) if self.nullable[b])
+        });
+        let epsilon_rules = self.rules.iter().filter(|r| r.rhs.is_empty()).count();
+        vec![
+            ("direct_left_recursion", direct_lr),
+            ("indirect_left_recursion", indirect_lr),
+            ("nullable_only_through_nonterminals", nullable_via_nt),
+            ("nullable_chain_depth_2plus", nullable_chain2),
+            ("nonterminal_prefixed_nesting", nt_prefixed_nesting),
+            ("nullable_nonterminal_at_rule_end", right_nullable_tail),
+            ("two_or_more_epsilon_rules", epsilon_rules >= 2),
+            ("unproductive_nonterminal", !self.all_productive()),
+            ("unreachable_nonterminal", self.reachable.iter().any(|r| !*r)),
+            ("ten_or_more_terminals", false),
+        ]
+    }
+
     /// Random derivation from the start symbol with a height budget; falls back
     /// to a minimal-height rule when the budget is exhausted, so it terminates
     /// on every productive grammar. `cap` bounds the sentence length softly:
